@@ -66,6 +66,8 @@ def run(ctx, R):
     B = ctx.facts("default", "build_script_main")
     R.rule("RF9 build-script vs run-time agreement of the atom encoding; RF4 Atom fabrication sites; RF3 lookup before allocation; RF4 textual order")
 
+    inline_accessor_has_a_fallback(F, R)
+
     # ---- R1: constants ---------------------------------------------------------------------------------
     cb = B.const("static_string_indexing::INLINED_ATOM_MAX_LEN")
     cr = F.const("atom_table::INLINED_ATOM_MAX_LEN")
@@ -179,3 +181,28 @@ def run(ctx, R):
     calls = [r for _, r, _ in hir_calls(F.hir(ac)["body"])]
     R.ob("C21:atom-order:textual", sum(1 for r in calls if r.endswith("Atom::as_str")) == 2 and not any(x["k"] == "Field" and x["name"] == "index" for x in walk(F.hir(ac)["body"])),
          "Ord for Atom must compare the two texts, never the indices", F.where(ac))
+
+
+def inline_accessor_has_a_fallback(F, R):
+    """Atom::inlined_str answers only for the atoms stored inline. A text observer built on it alone is a partial function
+    of the text: the NUL character is the one single-character atom that is never inlined, so `as_char` through
+    `inlined_str()?` answers None for it while every other observer still sees its text. Every caller of inlined_str
+    also reaches the static table or the shared table (is_static / as_ptr / STRINGS) for the atoms stored there."""
+    tgt = [p for p in F.items if p.endswith("atom_table::Atom::inlined_str")]
+    if len(tgt) != 1:
+        raise AnchorLost("Atom::inlined_str (%d)" % len(tgt))
+    n = 0
+    for p, cs in sorted(F.calls.items()):
+        if not any((c.get("resolved") or c.get("callee")) == tgt[0] for c in cs):
+            continue
+        top = re.sub(r"(::\{closure#\d+\})+$", "", p)
+        if top not in F.items:
+            continue
+        n += 1
+        body = F.hir(top)["body"]
+        other = any((x["k"] == "MethodCall" and x["name"] in ("is_static", "as_ptr")) or (x["k"] == "Path" and (x.get("res", {}).get("def") or "").endswith("STRINGS")) for x in walk(body))
+        R.ob("C21:inline-accessor:%s:other-representations-handled" % short(top), other,
+             "%s reads the atom's text through Atom::inlined_str and has no branch for atoms stored in the static or the shared table: it is a partial function of the text "
+             "(the NUL character atom is never inlined)" % short(top), F.where(top))
+    R.floor("callers of Atom::inlined_str", n, 2)
+
